@@ -141,10 +141,90 @@ def part_a(ck, ok, tier, rng):
         return
     for vias, mo in zip(fcases, mouts):
         passes = real_terminate_passes(vias)
+        # the same forest with some gateways exit()ed by the user beforehand: pass by pass against the model
+        pre = [int(rng.random() < 0.35) for _ in vias]
+        tr, left, tj = real_terminate_trace(vias, pre)
+        try:
+            mo2 = Model().run([[5, 2, len(vias)] + list(vias) + pre])[0]
+        except Exception as e:  # noqa
+            ck.broke("correspondence", "modelrun-terminate", repr(e))
+            mo2 = None
+        if mo2 is not None:
+            mtr, i = [], 1
+            for _ in range(mo2[0]):
+                mtr.append(mo2[i + 1:i + 1 + mo2[i]])
+                i += 1 + mo2[i]
+            ck.count("terminate_traces")
+            if mtr != tr or left or tj:
+                ck.broke("correspondence", "terminate-passes-model-vs-impl", {"vias": list(vias), "exited_before": pre, "impl_passes": tr, "model_passes": mtr, "members_left": left, "tojoin_left": tj})
+            # join/wait/kill of a proxied gateway travel through a live via gateway
+            exited_at = {}
+            for k, p in enumerate(tr):
+                for x in p:
+                    exited_at[x] = k
+            for x, v in enumerate(vias):
+                if v >= 0 and exited_at.get(v, 10 ** 6) <= exited_at.get(x, -1) and not pre[v]:
+                    ck.fail("via-gateway-exited-before-the-gateway-routed-through-it-was-joined", {"vias": list(vias), "exited_before": pre, "passes": tr})
         ck.case(("forest", tuple(vias)), nontrivial=len(vias) > 1)
         if passes != mo[0]:
             ck.broke("correspondence", "terminate-rounds-model-vs-impl", {"vias": vias, "impl_passes": passes, "model": mo[0]})
     ck.cov["forest_cases"] = len(fcases)
+
+
+def real_terminate_trace(vias, pre):
+    """Group.terminate on stub gateways of which some were exit()ed before: the gateways every pass hands to safe_terminate"""
+    from execnet import multi
+
+    class Spec:
+        def __init__(self, via):
+            self.via = via
+
+    class IO:
+        def wait(self):
+            return 0
+
+        def kill(self):
+            pass
+
+    class GW:
+        def __init__(self, group, i, via):
+            self.id = "g%d" % i
+            self.spec = Spec(None if via < 0 else "g%d" % via)
+            self._io = IO()
+            self._group = group
+
+        def exit(self):
+            if self in self._group:
+                self._group._unregister(self)
+
+        def join(self):
+            pass
+
+    g = multi.Group()
+    gws = []
+    for i, v in enumerate(vias):
+        gw = GW(g, i, v)
+        g._gateways.append(gw)
+        gws.append(gw)
+    for i, p in enumerate(pre):
+        if p:
+            gws[i].exit()
+    trace = []
+    orig = multi.safe_terminate
+
+    def recording(execmodel, timeout, pairs):
+        trace.append([int(f.args[0].id[1:]) for f, _ in pairs])
+        return orig(execmodel, timeout, pairs)
+
+    multi.safe_terminate = recording
+    try:
+        g.terminate(timeout=1)
+    finally:
+        multi.safe_terminate = orig
+        import atexit
+
+        atexit.unregister(g._cleanup_atexit)
+    return trace, len(g), len(g._gateways_to_join)
 
 
 def real_terminate_passes(vias):
@@ -431,6 +511,30 @@ def part_d(ck, tier, rng):
                 os.kill(pid, signal.SIGKILL)
             except OSError:
                 pass
+    # a member reached through another gateway that was exit()ed before: it is joined THROUGH its via gateway, which must not be
+    # exited in the same pass
+    for rd in range(1 if tier == "quick" else 3):
+        group = execnet.Group()
+        group.makegateway("popen//id=vm%d" % rd)
+        sub = group.makegateway("popen//via=vm%d//id=vs%d" % (rd, rd))
+        pid = sub._rinfo().pid
+        sub.exit()
+        t0 = time.time()
+        st, val = X.with_timeout(lambda: group.terminate(timeout=1.0), 20)
+        dt = time.time() - t0
+        time.sleep(0.3)
+        ck.case(("via-exit-then-terminate", rd), nontrivial=True)
+        ck.count("via_exit_then_terminate")
+        if st != "ok":
+            ck.fail("terminate-raises-or-hangs:via-member-exited-before", {"status": st, "error": repr(val)[:200], "seconds": dt})
+        elif pid_alive(pid) or len(group):
+            ck.fail("via-sub-child-alive-after-terminate:exited-before-terminate", {"pid": pid, "group_len": len(group), "seconds": dt})
+        if pid_alive(pid):
+            try:
+                os.kill(pid, signal.SIGKILL)
+            except OSError:
+                pass
+        X.with_timeout(lambda: group.terminate(timeout=1.0), 10)
     # the write of the exit request is not covered by the time-out: a stopped worker and a local sender that fills the pipe
     group = execnet.Group()
     gw = group.makegateway("popen//id=full")
